@@ -95,11 +95,12 @@ type scenario struct {
 	Faults     int    // total non-default answers the director may give (keeps unbounded runs finite)
 	StopKind   string // "", "stop", "cancel": whether the director may stop / cancel at any point
 	Bound      int
+	Slow       bool // slow consumer: every callback invocation is a gate, so Stop / cancel and answers can land while a batch is only partly handed over
 }
 
 func (s scenario) String() string {
-	return fmt.Sprintf("N=%d [%d,%d) batch=%d fetchers=%d cont=%v grow=%v mode=%s workers=%d buf=%d faults=%d stop=%q bound=%d",
-		s.N, s.Start, s.End, s.Batch, s.Fetchers, s.Continuous, s.Grow, s.Mode, s.Workers, s.Buffer, s.Faults, s.StopKind, s.Bound)
+	return fmt.Sprintf("N=%d [%d,%d) batch=%d fetchers=%d cont=%v grow=%v mode=%s workers=%d buf=%d faults=%d stop=%q bound=%d slow=%v",
+		s.N, s.Start, s.End, s.Batch, s.Fetchers, s.Continuous, s.Grow, s.Mode, s.Workers, s.Buffer, s.Faults, s.StopKind, s.Bound, s.Slow)
 }
 
 type reqInfo struct {
@@ -164,6 +165,15 @@ func (g *gatedLog) GetRawEntries(ctx context.Context, start, end int64) (*ct.Get
 	return rsp, nil
 }
 
+// transportTimeout mimics net/http's per-attempt timeout errors: a net.Error with
+// Timeout() == true that also matches context.DeadlineExceeded under errors.Is.
+type transportTimeout struct{}
+
+func (transportTimeout) Error() string        { return "net/http: timeout awaiting response headers" }
+func (transportTimeout) Timeout() bool        { return true }
+func (transportTimeout) Temporary() bool      { return true }
+func (transportTimeout) Is(target error) bool { return target == context.DeadlineExceeded }
+
 type delivery struct {
 	index int64
 	data  string
@@ -194,6 +204,9 @@ func runScenario(sc scenario) func(t *testing.T, x *gate.Exec) {
 			if sc.Mode == "fetcher" {
 				fetcher = scanner.NewFetcher(lg, &fopts)
 				runErr = fetcher.Run(ctx, func(b scanner.EntryBatch) {
+					if sc.Slow {
+						env.Ask(fmt.Sprintf("callback(batch at %d)", b.Start), "cb", nil)
+					}
 					mu.Lock()
 					for i, e := range b.Entries {
 						got = append(got, delivery{b.Start + int64(i), string(e.LeafInput) + "|" + string(e.ExtraData), "batch"})
@@ -214,6 +227,9 @@ func runScenario(sc scenario) func(t *testing.T, x *gate.Exec) {
 				scn = scanner.NewScanner(lg, so)
 				rec := func(via string) func(*ct.RawLogEntry) {
 					return func(e *ct.RawLogEntry) {
+						if sc.Slow {
+							env.Ask(fmt.Sprintf("callback(entry %d)", e.Index), "cb", nil)
+						}
 						li, _ := tls.Marshal(e.Leaf)
 						mu.Lock()
 						got = append(got, delivery{e.Index, string(li), via})
@@ -275,6 +291,8 @@ func runScenario(sc scenario) func(t *testing.T, x *gate.Exec) {
 					base = 1
 				}
 				switch p.Kind {
+				case "cb":
+					add(p.Key+" proceeds", base, func() { env.Answer(p, nil) })
 				case "sth":
 					// An answer repeating the size of the previous answer is an idle poll. Idle polls
 					// are unlimited while the scan still has published entries to deliver (the
@@ -350,6 +368,8 @@ func runScenario(sc scenario) func(t *testing.T, x *gate.Exec) {
 							env.Answer(p, entriesAns{err: jsonclient.RspError{StatusCode: 500, Err: errors.New("internal")}})
 						})
 						add(p.Key+" <- neterr", base+1, func() { faults--; env.Answer(p, entriesAns{err: errors.New("connection reset")}) })
+						// a per-request transport timeout: matches context.DeadlineExceeded although the scan's own context is live
+						add(p.Key+" <- request timeout", base+1, func() { faults--; env.Answer(p, entriesAns{err: transportTimeout{}}) })
 					}
 				}
 			}
@@ -585,6 +605,15 @@ func scenarios(th bool) []scenario {
 		}
 	}
 	out = append(out, scenario{N: 4, Batch: 3, Fetchers: 1, Mode: "scan-all", Workers: 2, Buffer: 1, Faults: 1, StopKind: "cancel", Bound: 2})
+	// slow consumers: Stop / cancel and further answers while a fetched batch is only partly handed over
+	for _, w := range []int{1, 2} {
+		for _, b := range []int{0, 1} {
+			out = append(out, scenario{N: 5, Batch: 4, Fetchers: 1, Mode: "scan-all", Workers: w, Buffer: b, Faults: 1, StopKind: "cancel", Bound: 1, Slow: true})
+		}
+	}
+	out = append(out, scenario{N: 5, Batch: 2, Fetchers: 2, Mode: "scan-leafparity", Workers: 2, Buffer: 0, Faults: 1, StopKind: "cancel", Bound: 1, Slow: true})
+	out = append(out, scenario{N: 4, Batch: 2, Fetchers: 2, Mode: "fetcher", Faults: 1, StopKind: "stop", Bound: 1, Slow: true})
+	out = append(out, scenario{N: 4, Batch: 2, Fetchers: 2, Mode: "fetcher", Faults: 1, StopKind: "cancel", Bound: 1, Slow: true})
 	// continuous
 	for _, f := range []int{1, 2} {
 		out = append(out, scenario{N: 2, Batch: 2, Fetchers: f, Mode: "fetcher", Continuous: true, Grow: []int{1, 3}, Faults: 1, Bound: 2})
@@ -611,7 +640,7 @@ func TestCheck(t *testing.T) {
 	}
 	rand.Seed(seed)
 	scs := scenarios(r.Thorough())
-	r.Rule("for each scenario (tree size, [start,end), batch, parallel fetchers, matcher workers/buffer/kind, one-shot or continuous with growth steps), every choice vector with deviation cost <= bound: which pending GetRawEntries/GetSTH is answered next, with {full, every short length, 429, 500, network error}, when the log grows, and Stop/cancel at any decision point. distinct_nontrivial = distinct (scenario, delivery order, request count) outcomes")
+	r.Rule("for each scenario (tree size, [start,end), batch, parallel fetchers, matcher workers/buffer/kind, one-shot or continuous with growth steps), every choice vector with deviation cost <= bound: which pending GetRawEntries/GetSTH is answered next, with {full, every short length, 429, 500, network error, per-request timeout}; slow-consumer scenarios additionally gate every callback invocation, when the log grows, and Stop/cancel at any decision point. distinct_nontrivial = distinct (scenario, delivery order, request count) outcomes")
 	r.Assume("zero-length answers and zero/negative batch or worker counts are outside the property's domain and not generated",
 		"back-off jitter (math/rand) is not owned; no oracle depends on it",
 		"interleavings are explored at the granularity of LogClient calls; accesses between calls are covered by the free-running race pass")
